@@ -371,7 +371,18 @@ class Interp:
             return vunk("abstract")
         stubs = self.config.get("stubs")
         if stubs and fi.short in stubs:
-            return stubs[fi.short](self, clo, args, kwargs, st, node)
+            # a stub sees its arguments in the order of the parameters, however the call site spelled them
+            a_ = fi.node.args
+            names = [x.arg for x in a_.posonlyargs + a_.args]
+            if clo.self_v is not None and names and not isinstance(fi.node, ast.Lambda):
+                names = names[1:]
+            pos, kwl = list(args), dict(kwargs)
+            for p_ in names[len(pos):]:
+                if p_ in kwl:
+                    pos.append(kwl.pop(p_))
+                else:
+                    break
+            return stubs[fi.short](self, clo, pos, kwl, st, node)
         self.inlined.add(fi.qualname)
         env = self.bind_args(fi, args, kwargs, st, clo.self_v)
         fr = Frame(fi, clo.self_v, clo.env_chain, len(st.pc), len(self.framestack))
@@ -1815,6 +1826,11 @@ class Interp:
         if it is None or init is None or body_v is None or head_t is None or init.kind != "arr" or init.shape is None:
             return None
         t = body_v.term
+        conds_ = []
+        if isinstance(t, Term) and t.op == "phi":
+            # guarded store: `if c(j): out[j, j] = e(j)` into a zero matrix
+            t, cc_ = loops.split_guard(t, head_t)
+            conds_ = [c for c0 in cc_ for c in loops.flatten_and(c0)]
         if not isinstance(t, Term) or t.op != "store" or t.args[0] != head_t:
             return None
         n = self.api.length_dim(self, it)
@@ -1822,6 +1838,19 @@ class Interp:
             return None
         lvt = T("lv", lid)
         idx, e = t.args[1], t.args[2]
+        it0 = init.term
+        while isinstance(it0, Term) and it0.op == "astype" and it0.args and isinstance(it0.args[0], Term):
+            it0 = it0.args[0]
+        if isinstance(idx, Term) and idx.op == "tuple" and len(idx.args) == 2 and idx.args[0] == lvt and idx.args[1] == lvt and len(init.shape) == 2 and init.shape[0] == n and init.shape[1] == n and isinstance(it0, Term) and it0.op == "zeros" and self.term_shape(e) == () and not loops.mentions_head(e, lid) and not any(loops.mentions_head(c, lid) for c in conds_):
+            # out = zeros((n, n)); for j: [if c(j):] out[j, j] = e(j)   is   diag(where(c, e, 0))
+            vt = loops.vectorise(e, lvt, n, self.term_shape, self.api.dim_term)
+            masks = [loops.vectorise(c, lvt, n, self.term_shape, self.api.dim_term) for c in conds_]
+            if vt is not None and all(m is not None for m in masks):
+                diag = T("where3", loops.conj(masks), vt, const(0)) if masks else vt
+                return init.replace(term=T("dg", diag), labels=init.labels | body_v.labels, has_const=False, const_=None, items=None)
+            return None
+        if conds_:
+            return None
         if loops.mentions_head(e, lid) or loops.mentions_head(idx, lid):
             return None
         esh = self.term_shape(e)
